@@ -1474,3 +1474,123 @@ def replay(ctx, rep):   # noqa: F811
         pye()
         return common.scenario_replay(ctx, rep, {'namesake': namesake_scenarios})
     return _replay_main5(ctx, rep)
+
+
+# ---------------------------------------------------------------------------
+# chains a -> b <-> c over three directories (loading b needs c), directory names with characters that mean something
+# in a URI ('#', ' ', '%', non-ASCII), and a target that is missing the first time the reference is followed and back
+# the second time: the first attempt fails, the second reaches the very objects of b and c
+# (oracle on the implementation only)
+
+def chain_scenarios(ctx, out):
+    import shutil as _sh
+    import tempfile as _tf
+    from pyecore.ecore import EClass, EAttribute, EReference, EString, EPackage
+    from pyecore.resources import ResourceSet, URI
+    from pyecore.resources.json import JsonResource
+    rng = common.rng_for(ctx.seed, 'C14:chain')
+    n = 30 if ctx.tier != 'thorough' else 300
+    cnt = 0
+    NAMES = ['d', 'rev#2', 'my dir', 'p%20q', 'données', 'a+b', 'x#y#z']
+    for it in range(n):
+        fmt = 'xmi' if it % 2 == 0 else 'json'
+        pkg = EPackage('p', nsURI=f'http://verif/c14/chain/{it}', nsPrefix='p')
+        N = EClass('N')
+        N.eStructuralFeatures.append(EAttribute('name', EString))
+        N.eStructuralFeatures.append(EReference('kids', N, upper=-1, containment=True))
+        N.eStructuralFeatures.append(EReference('one', N))
+        fw = EReference('fw', N, upper=-1)
+        bw = EReference('bw', N, upper=-1, eOpposite=fw)
+        N.eStructuralFeatures.extend([fw, bw])
+        pkg.eClassifiers.append(N)
+
+        def new_rset():
+            rs = ResourceSet()
+            rs.metamodel_registry[pkg.nsURI] = pkg
+            if fmt == 'json':
+                rs.resource_factory['json'] = lambda uri: JsonResource(uri)
+            return rs
+        dirs = [rng.choice(NAMES) + str(i) for i in range(3)]
+        away = rng.choice([None, None, 'c', 'b'])
+        preload = rng.random() < 0.3          # b asked for explicitly before the reference is followed
+        hist = {'format': fmt, 'dirs': dirs, 'missing_first': away, 'b_loaded_explicitly': preload}
+        case = {'scenario': 'chain', 'seed': ctx.seed, 'tier': ctx.tier, 'history': hist}
+        sig = {'property': 'C14', 'clause': None, 'scenario': 'chain', 'format': fmt, 'missing_first': away is not None,
+               'special_dir': any(ch in ''.join(dirs) for ch in '#% +')}
+        tmp = _tf.mkdtemp(prefix='c14chain_')
+        try:
+            paths = {'a': os.path.join(tmp, dirs[0], 'a.' + fmt), 'b': os.path.join(tmp, dirs[1], 'sub', 'b.' + fmt),
+                     'c': os.path.join(tmp, dirs[2], 'c.' + fmt)}
+            rs = new_rset()
+            roots = {}
+            for key, p in paths.items():
+                os.makedirs(os.path.dirname(p))
+                root = N(name=key)
+                root.kids.append(N(name=key + '1'))
+                rs.create_resource(URI(p)).append(root)
+                roots[key] = root
+            roots['a'].one = roots['b'].kids[0]
+            roots['b'].kids[0].fw.append(roots['c'].kids[0])
+            for res in list(rs.resources.values()):
+                res.save()
+            rs2 = new_rset()
+            x = rs2.get_resource(URI(paths['a'])).contents[0]
+            if away:
+                _sh.move(paths[away], paths[away] + '.away')
+                try:
+                    x.one.name
+                    list(x.one.fw)[0].name
+                    sig['clause'] = 'missing-target-followed'
+                    out.fail(sig, f'following a.one (and on to c) succeeded although the file of {away} is missing', case)
+                    continue
+                except Exception:  # noqa
+                    pass
+                _sh.move(paths[away] + '.away', paths[away])
+            elif preload:
+                rs2.get_resource(URI(paths['b']))
+            cnt += 1
+            problems = []
+            try:
+                p = x.one
+                if p.name != 'b1':
+                    problems.append(f'a.one reaches {p.name!r} instead of b1')
+                got = [t.name for t in p.fw]
+                if got != ['c1']:
+                    problems.append(f'a.one.fw reads {got}; the document of b says [c1]')
+                db = rs2.get_resource(URI(paths['b'])).contents[0].kids[0]
+                dc = rs2.get_resource(URI(paths['c'])).contents[0].kids[0]
+                if not (p == db and hash(p) == hash(db) and p.force_resolve() is db):
+                    problems.append('a.one is not the b1 found by navigating b directly')
+                if db not in dc.bw:
+                    problems.append(f'c1.bw does not hold b1: {[t.name for t in dc.bw]}')
+                if [t.name for t in db.fw] != ['c1'] or db.fw[0].force_resolve() is not dc:
+                    problems.append(f'b1.fw navigated directly does not reach the c1 of c: {[t.name for t in db.fw]}')
+            except Exception as e:  # noqa
+                problems.append(f'following a.one raised {type(e).__name__}: {e}')
+            if problems:
+                sig['clause'] = 'chain-reference-reaches-another-object'
+                out.fail(sig, f'{hist}: {problems[0]}', case)
+        except Exception as e:  # noqa
+            sig['clause'] = 'chain-raised'
+            out.fail(sig, f'{type(e).__name__}: {e}', case)
+        finally:
+            _sh.rmtree(tmp, ignore_errors=True)
+    out.coverage['chain_references_followed'] = cnt
+
+
+_run_main6 = run
+
+
+def run(ctx, out):   # noqa: F811
+    _run_main6(ctx, out)
+    chain_scenarios(ctx, out)
+
+
+_replay_main6 = replay
+
+
+def replay(ctx, rep):   # noqa: F811
+    if rep.get('case', {}).get('scenario') == 'chain':
+        pye()
+        return common.scenario_replay(ctx, rep, {'chain': chain_scenarios})
+    return _replay_main6(ctx, rep)
